@@ -1,4 +1,5 @@
 import TakVerif.Props.C07_compose
+import TakVerif.Proofs.FPATotal
 
 /-! # C07 / C20 — the FPA rule's notes are a function of the game record (`fixes/C07-fpa-record-notes.diff`)
 
@@ -117,7 +118,10 @@ theorem call_notes_irrelevant (c : Compose.Conf) (var : Variant) (hw : c.who = .
   unfold glueCall glueOn
   rw [hw]
   simp only [hrep, if_true]
-  exact friendly_notes_irrelevant var r r' _ _ p0 chk (hP.last hnc) hp0 (hs.core.shape hnc) hm hp
+  apply Compose.friendlyOf_congr
+  rw [fpaCheck_some, fpaCheck_some]
+  rw [notes_irrelevant var r r' { color := c.bot.color, size := c.size, positions := s.b.positions, moves := s.b.moves }
+    s.b.cur.pos p0 (hP.last hnc) hp0 (hs.core.shape hnc) hm hp]
 
 /-! ## the three histories -/
 
